@@ -12,7 +12,7 @@ Proof.
   intros N G.
   assert (P : forall e, abs k (mkState (store_put (store s) k' e) (insts s)) = abs k s).
   { intro e. unfold abs, store_put; cbn. now rewrite find_put_other. }
-  destruct o as [i|i|i secs|ms|v ttl| |i rel r]; cbn [step global_op] in *; try discriminate.
+  destruct o as [i|i|i secs|ms|v ttl| |i rel r|i dl]; cbn [step global_op] in *; try discriminate.
   - destruct (nth_error (insts s) i) as [l|]; [|reflexivity]. rewrite acquire_step.
     destruct (lease (isecs l) <=? 0); [destruct s; reflexivity|].
     destruct (lookup (store s) k') as [e|]; [destruct (bulk_eqb (evalue e) (BStr (iid l)))|];
@@ -24,6 +24,10 @@ Proof.
   - cbn [fst]. apply P.
   - reflexivity.
   - destruct (nth_error (insts s) i); reflexivity.
+  - destruct (nth_error (insts s) i) as [l|]; [|reflexivity]. rewrite acquire_step.
+    destruct (lease (isecs l) <=? 0); [destruct s; reflexivity|].
+    destruct (lookup (store s) k') as [e|]; [destruct (bulk_eqb (evalue e) (BStr (iid l)))|];
+      cbn [fst]; try apply P; destruct s; reflexivity.
 Qed.
 
 (* the state-changing part of SetExpire / Advance does not depend on the key they are filed under *)
@@ -82,6 +86,26 @@ Lemma lease_range_all : forall secs, 0 <= secs < 4294967296 ->
   (lease secs < 2 ^ 31 <-> secs <= 2147483) /\
   (lease secs < 2 ^ 32 <-> secs <= 4294966).
 Proof. intros secs H. rewrite lease_today. repeat split; lia. Qed.
+
+(* ------------------------------------------------------------ the request context *)
+(* AcquireCtx with a live request context - with or without a deadline, however close - is
+   Acquire: same answer, same lease (seconds*1000+500 ms from now), same state *)
+Lemma lease_independent_of_context_all key s i dl : step key s (OAcquireCtx i dl) = step key s (OAcquire i).
+Proof. reflexivity. Qed.
+
+Lemma ctx_lease_exact_all key s i l dl :
+  NoDup (ids s) -> secs_ok s -> nth_error (insts s) i = Some l ->
+  snd (step key s (OAcquireCtx i dl)) = RB true false ->
+  snd (step key (fst (step key s (OAcquireCtx i dl))) OTtl) = RT (Some (Some (isecs l * 1000 + 500))).
+Proof.
+  intros ND HS Hn Hok. rewrite lease_independent_of_context_all in *.
+  destruct (acquire_spec key s i l Hn (secs_ok_nth _ _ _ HS Hn)) as [A [B C]].
+  rewrite A in Hok. inversion Hok as [Hok']. rewrite Hok' in C. destruct C as [C1 [C2 C3]].
+  set (s' := fst (step key s (OAcquire i))) in *.
+  change (snd (step key s' OTtl)) with (RT (pttl (store s') key)).
+  unfold pttl. unfold seen in C1. rewrite C1. cbn [eexp]. rewrite C2, lease_today.
+  do 3 f_equal. lia.
+Qed.
 
 Lemma to_uint32_range z : 0 <= to_uint32 z < 4294967296.
 Proof. unfold to_uint32. apply Z.mod_pos_bound. lia. Qed.
